@@ -24,6 +24,9 @@ func (l *LRAPlanner) Process(ctx *shared.PlannerContext,
 
 func (l *LRAPlanner) addValue(ctx *shared.PlannerContext, entry *shared.LogEntry, stream *aggOpStream) {
 	idx := (entry.TimestampNS - ctx.From.UnixNano()) / l.Duration.Nanoseconds() * 2
+	if idx < 0 || idx+1 >= int64(len(stream.values)) {
+		return
+	}
 	switch l.Func {
 	case "rate":
 		stream.values[idx]++
